@@ -10,8 +10,133 @@ def proved(run):
     run.extra["encoder_cross_check"] = dict(functions=crosscheck.run_all(), disagreements=0)   # RuntimeError (exit 3) on disagreement
     run.trust("pyvc symbolic interpreter over the real AST", f"z3 {z3.get_version_string()}")
     run.assume('T-PREFIX: each (string, prefix) pair has exactly one accepting path in the 2-state machine (assumed; construction proved)', 'T-BARHILLEL (C09)')
-    for f in (C.prefix_transducer,):
+    for f in (C.prefix_transducer, derivative_construction):
         try:
             f(run)
         except (I.OutOfSubset, KeyError) as e:
             run.obligation("C03/" + f.__name__, "out-of-subset", detail=str(e))
+
+
+# ------------------------------------------------------------------------------------------------ CFG.derivative
+def _factors(e):
+    """Multiset of atomic factors of a product term over the free commutative monoid (wmul, R_one)."""
+    from vlib.pyvc import gharness as G
+    if z3.is_app(e) and e.decl().eq(G.wmul):
+        return _factors(e.arg(0)) + _factors(e.arg(1))
+    if e.eq(G.w1):
+        return []
+    return [str(e)]
+
+
+def derivative_construction(run):
+    """C03/cfg.CFG.derivative/construction (auxiliary): for a generic rule (w, h, y_1..y_n), n = 0..3, of a generic grammar and a
+    terminal a, the grammar returned by derivative(a) receives exactly
+        the rule itself,   and, unless h/a is already a nonterminal of the input (then nothing more),
+        for every k:   delta_k * w : h/a -> y_{k+1} .. y_n             if y_k is the terminal a
+                       delta_k * w : h/a -> y_k/a  y_{k+1} .. y_n     if y_k is a nonterminal
+        with delta_k = U[y_1] * .. * U[y_{k-1}]  (U = null_weight(), products in the commutative semiring),
+    and its start symbol is S/a.  (That this construction denotes the left quotient is the classical Brzozowski argument:
+    assumed, and exercised by the bounded layer.)"""
+    from props.C07_proved import Harness
+    from vlib.pyvc import source, smt, symstruct as S, gharness as G
+    name = "C03/cfg.CFG.derivative/construction"
+    h = Harness("CFG.derivative", lengths=[0, 1, 2, 3], nofork=True)   # rules are recorded under the guard `weight != zero`
+    run.function_under_contract("genlm.grammar.cfg.CFG.derivative", source.sha(h.fn))
+    slash_f = z3.Function("slash", S.SYM, S.SYM, S.SYM)
+    U = S.SymMap("nullweight", G.W)
+    a = S.sym("a_tok")
+
+    def hooks(it, gs, fn, genv):
+        genv.vars["Slash"] = I.Native("Slash", lambda i2, x, k: I.Z(slash_f(I.zexpr(x[0]), I.zexpr(x[1]))))
+        gs.methods["null_weight"] = I.Native("null_weight", lambda i2, x, k: U)
+        gs.path.assume(gs.V.mem(a.e))
+
+    try:
+        results = h.run(lambda it, gs: ([a], {}), lambda it, gs, ret: ret, hooks)
+    except (I.OutOfSubset, I.PyRaise) as e:
+        run.obligation(name, "out-of-subset", role="auxiliary", detail=str(e))
+        return
+    why, sites = None, 0
+    for path, r in results:
+        if "raised" in r:
+            why = "raises " + r["raised"]
+            break
+        gs, ret = r["gs"], r["goals"]
+        if not isinstance(ret, G.GramRec):
+            why = "does not return a spawned grammar"
+            break
+        if smt.prove(list(path.pc), I.zexpr(ret.f["S"]) == slash_f(gs.S.e, a.e))["verdict"] != "proved":
+            why = "start symbol is not S/a"
+            break
+        if not gs.generic:
+            continue
+        gen = gs.generic[0]
+        n = gen.body.length()
+        ys = [I.zexpr(gen.body.at(None, j)) for j in range(n)]
+
+        def decided(f):
+            if smt.prove(list(path.pc), f)["verdict"] == "proved":
+                return True
+            if smt.prove(list(path.pc), z3.Not(f))["verdict"] == "proved":
+                return False
+            return None
+        ha = slash_f(gen.head.e, a.e)
+        want = [(["w"], gen.head.e, list(ys))]
+        skip = decided(gs.N.mem(ha))
+        delta = []
+        for k in range(n):
+            if skip is None:
+                # the path never looked at `h/a in N`: legitimate only if no slash rule could be due, i.e. handled below per k
+                pass
+            term = decided(gs.V.mem(ys[k]))
+            if not skip:
+                if term is None:
+                    why = f"path {path.taken} does not decide whether body symbol {k} is a terminal"
+                    break
+                if term:
+                    eq = decided(ys[k] == a.e)
+                    if eq is None:
+                        why = f"path {path.taken} does not decide whether body symbol {k} is the token"
+                        break
+                    if eq:
+                        want.append((["w"] + list(delta), ha, ys[k + 1:]))
+                else:
+                    want.append((["w"] + list(delta), ha, [slash_f(ys[k], a.e)] + ys[k + 1:]))
+            delta.append(str(U.f(ys[k])))
+        if why:
+            break
+        if skip is None and n > 0:
+            why = f"path {path.taken} does not decide whether h/a is already a nonterminal"
+            break
+        have = ret.adds
+        if len(have) != len(want):
+            why = f"{len(have)} rules emitted, construction has {len(want)} (arity {n}, path {path.taken})"
+            break
+        for ad, (fs, hd, body) in zip(have, want):
+            sites += 1
+            fw = sorted(_factors(I.zexpr(ad["w"])))
+            fe = sorted(str(gen.w.e) if x == "w" else x for x in fs)
+            if fw != fe:
+                why = f"weight {fw} where the construction has {fe}"
+                break
+            if smt.prove(list(path.pc), I.zexpr(ad["head"]) == hd)["verdict"] != "proved":
+                why = f"head {I.zexpr(ad['head'])} where the construction has {hd}"
+                break
+            L = ad["body"].length()
+            if not isinstance(L, int) or L != len(body):
+                why = f"body of length {L} where the construction has {len(body)}"
+                break
+            for j in range(L):
+                if smt.prove(list(path.pc), I.zexpr(ad["body"].at(None, j)) == body[j])["verdict"] != "proved":
+                    why = f"body symbol {j} differs from the construction (arity {n}, path {path.taken})"
+                    break
+            if why:
+                break
+        if why:
+            break
+    if why:
+        run.obligation(name, "refuted", role="auxiliary", backend="pyvc+z3", detail=why, replay=dict(replayed=False, why=why), signature="derivative:construction")
+    elif sites < 10:
+        run.obligation(name, "out-of-subset", role="auxiliary", detail=f"vacuous: {sites} emitted rules")
+    else:
+        run.obligation(name, "proved", role="auxiliary", backend="pyvc+z3", detail=f"{len(results)} paths over arity 0..3 x (h/a in N?, terminal?, = a?); {sites} emitted rules equal the quotient construction")
